@@ -58,7 +58,11 @@ impl<A: Send + 'static> StreamSink<A> {
             self.sodium_ctx.with_data(|data: &mut SodiumCtxData| {
                 data.changed_nodes.push(node.box_clone());
             });
+            #[cfg(feature = "verif_hooks")]
+            crate::verif::sched_point("send:after-push");
             self.stream._send(a);
+            #[cfg(feature = "verif_hooks")]
+            crate::verif::sched_point("send:after-store");
         });
     }
 
